@@ -392,6 +392,13 @@ Proof.
 Qed.
 
 
+(* the loader's first loop finds no key that is too large exactly when all keys are small *)
+Lemma no_large_of_small kk : Forall small kk -> existsb (fun k => max_uint32 <? len k) kk = false.
+Proof.
+  induction 1 as [|k kk Hk _ IH]; [reflexivity|]. cbn [existsb]. rewrite IH.
+  unfold small in Hk. destruct (N.ltb_spec max_uint32 (len k)); [lia|reflexivity].
+Qed.
+
 Theorem load_ok st kk (vv : list V) :
   length kk = length vv -> Forall small kk -> count_ok (len kk) ->
   exists st', load hash sort st kk vv = (st', Ok tt) /\ loaded st' /\
@@ -399,6 +406,7 @@ Theorem load_ok st kk (vv : list V) :
 Proof.
   intros Hlen Hsm Hn. unfold load.
   destruct (N.eqb_spec (len kk) (len vv)) as [_|Hne]; [|unfold len in Hne; lia]. cbn [negb].
+  rewrite (no_large_of_small kk Hsm).
   destruct (build_spec kk vv [] Hlen Hsm) as (its & Hb & Hl & Hpost).
   change (len (@nil N)) with 0 in Hb. rewrite Hb.
   destruct (Hpost []) as [Hm Hg]. cbn [app] in Hm, Hg. rewrite app_nil_r in Hm, Hg.
@@ -497,6 +505,32 @@ Theorem load_fail_noop st kk (vv : list V) :
 Proof.
   intros H. unfold load. destruct (N.eqb_spec (len kk) (len vv)) as [He|_]; [|reflexivity].
   unfold len in He. lia.
+Qed.
+
+(* ... and so does a load refused because a key is too large (since the repair of /repo: the test is made
+   before anything is reset): every load that returns an error leaves the map as it was *)
+Theorem load_fail_noop_large st kk (vv : list V) :
+  length kk = length vv -> ~ Forall small kk -> load hash sort st kk vv = (st, Err 2).
+Proof.
+  intros Hl Hns. unfold load. destruct (N.eqb_spec (len kk) (len vv)) as [_|Hne]; [|unfold len in Hne; lia].
+  cbn [negb]. destruct (existsb (fun k => max_uint32 <? len k) kk) eqn:E; [reflexivity|].
+  exfalso. apply Hns. apply Forall_forall. intros k Hk. unfold small.
+  destruct (N.ltb_spec max_uint32 (len k)) as [Hlt|Hle]; [|exact Hle].
+  assert (existsb (fun k => max_uint32 <? len k) kk = true) as Et.
+  { apply existsb_exists. exists k. split; [exact Hk|]. apply N.ltb_lt. exact Hlt. }
+  congruence.
+Qed.
+
+Theorem load_err_noop st kk (vv : list V) e :
+  snd (load hash sort st kk vv) = Err e -> fst (load hash sort st kk vv) = st \/ (Forall small kk /\ length kk = length vv).
+Proof.
+  intros H. unfold load in *. destruct (negb (len kk =? len vv)) eqn:E1; [left; reflexivity|].
+  destruct (existsb (fun k => max_uint32 <? len k) kk) eqn:E2; [left; reflexivity|]. right. split.
+  - apply Forall_forall. intros k Hk. unfold small. destruct (N.ltb_spec max_uint32 (len k)) as [Hlt|Hle]; [|exact Hle].
+    assert (existsb (fun k => max_uint32 <? len k) kk = true) as Et.
+    { apply existsb_exists. exists k. split; [exact Hk|]. apply N.ltb_lt. exact Hlt. }
+    congruence.
+  - apply Bool.negb_false_iff in E1. apply N.eqb_eq in E1. unfold len in E1. lia.
 Qed.
 
 Theorem get_unloaded s : get hash (@new_map V) s = Ok None.
